@@ -24,9 +24,13 @@ func ParseURL(str string) (opt ClientOption, err error) {
 		return opt, err
 	}
 	parseAddr := func(hostport string) (host string, addr string) {
-		host, port, _ := net.SplitHostPort(hostport)
+		host, port, err := net.SplitHostPort(hostport)
+		if err != nil {
+			// no port: the whole string is the host, an IPv6 literal comes in brackets
+			host = strings.TrimSuffix(strings.TrimPrefix(hostport, "["), "]")
+		}
 		if host == "" {
-			host = u.Host
+			host = u.Hostname()
 		}
 		if host == "" {
 			host = "localhost"
